@@ -1,313 +1,977 @@
-(* Proofs about Model/Conc09.v: the inductive invariant of the writer / snapshot / rotation /
-   compaction protocol over ALL schedules, any number of writer and snapshot threads.
-
-   The invariant is phrased over a `view` of the state that forgets the thread list:
-     v_hi    = first sequence number not yet appended (next_wal_seq, or the base of the writer that
-               has allocated but not yet appended),
-     v_tgt   = the collection a restart must yield now = store + (appended, not yet applied entries),
-     manifest, segment files, snapshot files, file-id counter, next_wal_seq, the segment file a
-     rotation has created but not yet listed, the active file.
-   `GV v` are the global facts, `P v p` what must hold for a thread in phase p:
-     (i)   a captured (last, copy) is consistent: while the manifest's pointer is not newer than
-           `last`, replaying the listed segments over `copy`, skipping entries covered by `last`,
-           gives v_tgt — at the capture this is `copy = store`, all listed entries covered, which
-           needs that NO writer sits between its sequence allocation and its apply: the capture step
-           is enabled only without readers of snapshot_lock;
-     (ii)  the manifest's pointer only grows (stale check under manifest_lock);
-     (iii) replaying the listed segments over the manifest's snapshot gives v_tgt: compaction drops
-           only segments all of whose entries are covered, rotation lists the new (empty) segment
-           before anything is appended to it. *)
-From Coq Require Import List NArith Bool Lia Arith.
-From Kyro Require Import Model.Amap Model.Conc09.
+(* The inductive invariant of Model/Conc09.v and the C09 theorems (see the header of Conc09Lemmas.v). *)
+From Coq Require Import List NArith Bool Lia Arith Sorted.
+From Kyro Require Import Model.Amap Model.Conc09 Proofs.Conc09Lemmas.
 Import ListNotations.
 Open Scope N_scope.
 
 (* ---------------------------------------------------------------------------------------------- *)
-(* association lists                                                                                *)
+(* The view                                                                                         *)
 (* ---------------------------------------------------------------------------------------------- *)
 
-Lemma tget_tset : forall l t p t', tget (tset l t p) t' = if Nat.eqb t t' then p else tget l t'.
-Proof.
-  induction l as [|[k q] r IH]; intros t p t'; cbn [tset tget].
-  - destruct (Nat.eqb t t'); reflexivity.
-  - destruct (Nat.eqb k t) eqn:E; cbn [tget].
-    + apply Nat.eqb_eq in E; subst k. destruct (Nat.eqb t t'); reflexivity.
-    + rewrite IH. destruct (Nat.eqb t t') eqn:E2; [|reflexivity].
-      apply Nat.eqb_eq in E2; subst t'. rewrite E. reflexivity.
-Qed.
+(* phase of the write-gate owner (Idle when the gate is free) *)
+Definition cur (st : state) : phase :=
+  match st_gate st with Some g => tget (st_thr st) g | None => Idle end.
+Definition hi_of (next : N) (p : phase) : N := match p with WAlloc _ base _ => base | _ => next end.
+Definition rot_of (p : phase) : option N := match p with WRotFile _ _ nf => Some nf | _ => None end.
 
-Lemma tget_tset_same : forall l t p, tget (tset l t p) t = p.
-Proof. intros. rewrite tget_tset, Nat.eqb_refl. reflexivity. Qed.
+Record view := mkV {
+  v_hi : N; v_tgt : store; v_man : manifest; v_files : list (N * list entry);
+  v_snaps : list (N * (N * store)); v_fid : N; v_next : N; v_rot : option N; v_act : N }.
 
-Lemma tget_tset_other : forall l t p t', t <> t' -> tget (tset l t p) t' = tget l t'.
-Proof. intros. rewrite tget_tset. destruct (Nat.eqb t t') eqn:E; [apply Nat.eqb_eq in E; tauto|reflexivity]. Qed.
+Definition view_of (st : state) : view :=
+  mkV (hi_of (st_next st) (cur st)) (apply_entries (st_store st) (pend_of (cur st)))
+      (st_man st) (st_files st) (st_snaps st) (st_fid st) (st_next st) (rot_of (cur st)) (st_active st).
 
-Lemma forallb_tget : forall (h : phase -> bool) l, h Idle = true ->
-  forallb (fun tp => h (snd tp)) l = true -> forall t, h (tget l t) = true.
-Proof.
-  induction l as [|[k q] r IH]; intros Hi H t; cbn [tget]; [exact Hi|].
-  cbn [forallb snd] in H. apply andb_true_iff in H. destruct H as [H1 H2].
-  destruct (Nat.eqb k t); auto.
-Qed.
+Definition listed (v : view) : list entry := flat (v_files v) (m_segs (v_man v)).
 
-Section AssocLemmas.
-  Context {V : Type}.
-  Implicit Types l : list (N * V).
+Record GV (v : view) : Prop := mkGV {
+  gv_next : 1 <= v_hi v /\ v_hi v <= v_next v;
+  gv_nodup : NoDup (m_segs (v_man v));
+  gv_listed : forall f, In f (m_segs (v_man v)) -> (exists es, fget (v_files v) f = Some es) /\ f < v_fid v;
+  gv_last : exists pre, m_segs (v_man v) = pre ++ [v_act v];
+  gv_bounds : forall f es e, fget (v_files v) f = Some es -> In e es -> 1 <= e_seq e /\ e_seq e < v_hi v;
+  gv_ptr : forall pf ps, m_ptr (v_man v) = Some (pf, ps) ->
+           ps < v_hi v /\ pf < v_fid v /\ exists docs, fget (v_snaps v) pf = Some (ps, docs);
+  gv_base0 : m_ptr (v_man v) = None -> replay 0 empty (listed v) = v_tgt v;
+  gv_base1 : forall pf ps docs, m_ptr (v_man v) = Some (pf, ps) -> fget (v_snaps v) pf = Some (ps, docs) ->
+             replay ps docs (listed v) = v_tgt v;
+  gv_rot : forall nf, v_rot v = Some nf ->
+           fget (v_files v) nf = Some [] /\ nf < v_fid v /\ ~ In nf (m_segs (v_man v));
+  gv_sorted : StronglySorted N.lt (map e_seq (listed v))
+}.
 
-  Lemma fget_fset : forall l k v k', fget (fset l k v) k' = if N.eqb k k' then Some v else fget l k'.
-  Proof.
-    induction l as [|[k0 v0] r IH]; intros k v k'; cbn [fset fget].
-    - destruct (N.eqb k k'); reflexivity.
-    - destruct (N.eqb k0 k) eqn:E; cbn [fget].
-      + apply N.eqb_eq in E; subst k0. destruct (N.eqb k k'); reflexivity.
-      + rewrite IH. destruct (N.eqb k k') eqn:E2; [|reflexivity].
-        apply N.eqb_eq in E2; subst k'. rewrite E. reflexivity.
-  Qed.
+(* (i): a captured (last, copy) *)
+Definition Cand (v : view) (last : N) (copy : store) : Prop :=
+  last < v_hi v /\ (ptr_seq (v_man v) <= last -> replay last copy (listed v) = v_tgt v).
+Definition FileOk (v : view) (f last : N) (copy : store) : Prop :=
+  fget (v_snaps v) f = Some (last, copy) /\ f < v_fid v /\
+  (forall pf ps, m_ptr (v_man v) = Some (pf, ps) -> pf <> f).
+Definition Dead (v : view) (del : list N) : Prop :=
+  forall d, In d del -> ~ In d (m_segs (v_man v)) /\ v_rot v <> Some d /\ d < v_fid v.
 
-  Lemma fget_fdel : forall l k k', fget (fdel l k) k' = if N.eqb k k' then None else fget l k'.
-  Proof.
-    induction l as [|[k0 v0] r IH]; intros k k'; cbn [fdel fget].
-    - destruct (N.eqb k k'); reflexivity.
-    - destruct (N.eqb k0 k) eqn:E.
-      + apply N.eqb_eq in E; subst k0. rewrite IH. destruct (N.eqb k k'); reflexivity.
-      + cbn [fget]. rewrite IH. destruct (N.eqb k k') eqn:E2; [|reflexivity].
-        apply N.eqb_eq in E2; subst k'. rewrite E. reflexivity.
-  Qed.
-End AssocLemmas.
-
-Lemma fget_fset_same {V} : forall (l : list (N * V)) k v, fget (fset l k v) k = Some v.
-Proof. intros. rewrite fget_fset, N.eqb_refl. reflexivity. Qed.
-Lemma fget_fset_other {V} : forall (l : list (N * V)) k v k', k <> k' -> fget (fset l k v) k' = fget l k'.
-Proof. intros. rewrite fget_fset. destruct (N.eqb k k') eqn:E; [apply N.eqb_eq in E; tauto|reflexivity]. Qed.
-Lemma fget_fdel_other {V} : forall (l : list (N * V)) k k', k <> k' -> fget (fdel l k) k' = fget l k'.
-Proof. intros. rewrite fget_fdel. destruct (N.eqb k k') eqn:E; [apply N.eqb_eq in E; tauto|reflexivity]. Qed.
-
-Lemma fget_unlink : forall del files f,
-  fget (unlink_all files del) f = if existsb (N.eqb f) del then None else fget files f.
-Proof.
-  unfold unlink_all. induction del as [|d r IH]; intros files f; cbn [fold_left existsb]; [reflexivity|].
-  rewrite IH, fget_fdel. rewrite (N.eqb_sym f d).
-  destruct (N.eqb d f); cbn [orb]; destruct (existsb (N.eqb f) r); reflexivity.
-Qed.
-
-Lemma existsb_eqb_In : forall l f, existsb (N.eqb f) l = true <-> In f l.
-Proof.
-  intros. rewrite existsb_exists. split.
-  - intros [x [H1 H2]]. apply N.eqb_eq in H2. subst. exact H1.
-  - intros H. exists f. split; [exact H|apply N.eqb_refl].
-Qed.
-
-Lemma fget_unlink_notin : forall del files f, ~ In f del -> fget (unlink_all files del) f = fget files f.
-Proof.
-  intros. rewrite fget_unlink. destruct (existsb (N.eqb f) del) eqn:E; [|reflexivity].
-  apply existsb_eqb_In in E. tauto.
-Qed.
-
-Lemma fget_unlink_some : forall del files f es, fget (unlink_all files del) f = Some es -> fget files f = Some es.
-Proof. intros del files f es. rewrite fget_unlink. destruct (existsb (N.eqb f) del); [discriminate|auto]. Qed.
-
-(* ---------------------------------------------------------------------------------------------- *)
-(* replay                                                                                           *)
-(* ---------------------------------------------------------------------------------------------- *)
-
-Lemma replay_app : forall last d a b, replay last d (a ++ b) = replay last (replay last d a) b.
-Proof. intros. unfold replay. apply fold_left_app. Qed.
-
-Lemma replay_covered_all : forall last es d, forallb (covered last) es = true -> replay last d es = d.
-Proof.
-  induction es as [|e r IH]; intros d H; [reflexivity|].
-  cbn [forallb] in H. apply andb_true_iff in H. destruct H as [H1 H2].
-  unfold replay in *. cbn [fold_left]. unfold replay1 at 2. rewrite H1. apply IH. exact H2.
-Qed.
-
-Lemma replay_uncovered : forall last es d, (forall e, In e es -> covered last e = false) ->
-  replay last d es = apply_entries d es.
-Proof.
-  induction es as [|e r IH]; intros d H; [reflexivity|].
-  unfold replay, apply_entries in *. cbn [fold_left]. unfold replay1 at 2.
-  rewrite (H e (or_introl eq_refl)). apply IH. intros e' He'. apply H. right. exact He'.
-Qed.
-
-Lemma covered_mono : forall l l' e, covered l e = true -> l <= l' -> covered l' e = true.
-Proof.
-  unfold covered. intros l l' e H Hle.
-  apply andb_true_iff in H. destruct H as [H H3]. apply andb_true_iff in H. destruct H as [H1 H2].
-  apply N.ltb_lt in H1, H2. apply N.leb_le in H3.
-  rewrite !andb_true_iff. repeat split; [apply N.ltb_lt|apply N.ltb_lt|apply N.leb_le]; lia.
-Qed.
-
-Lemma covered_above : forall l e, l < e_seq e -> covered l e = false.
-Proof.
-  unfold covered. intros l e H. destruct (e_seq e <=? l) eqn:E; [apply N.leb_le in E; lia|].
-  rewrite andb_false_r. reflexivity.
-Qed.
-
-Lemma covered_below : forall l e, 1 <= e_seq e -> e_seq e <= l -> covered l e = true.
-Proof.
-  unfold covered. intros l e H1 H2. rewrite !andb_true_iff. repeat split; [apply N.ltb_lt|apply N.ltb_lt|apply N.leb_le]; lia.
-Qed.
-
-Lemma forallb_covered_mono : forall l l' es, l <= l' -> forallb (covered l) es = true -> forallb (covered l') es = true.
-Proof.
-  intros l l' es Hle H. rewrite forallb_forall in *. intros e He. eapply covered_mono; eauto.
-Qed.
-
-Lemma apply_entries_app : forall d a b, apply_entries d (a ++ b) = apply_entries (apply_entries d a) b.
-Proof. intros. unfold apply_entries. apply fold_left_app. Qed.
-
-(* ---------------------------------------------------------------------------------------------- *)
-(* the listed entries                                                                               *)
-(* ---------------------------------------------------------------------------------------------- *)
-
-Definition content (files : list (N * list entry)) (f : N) : list entry :=
-  match fget files f with Some es => es | None => [] end.
-Definition flat (files : list (N * list entry)) (segs : list N) : list entry :=
-  concat (map (content files) segs).
-
-Lemma flat_app : forall files a b, flat files (a ++ b) = flat files a ++ flat files b.
-Proof. intros. unfold flat. rewrite map_app, concat_app. reflexivity. Qed.
-
-Lemma flat_cons : forall files f r, flat files (f :: r) = content files f ++ flat files r.
-Proof. reflexivity. Qed.
-
-Lemma flat_ext : forall files files' segs, (forall f, In f segs -> fget files' f = fget files f) ->
-  flat files' segs = flat files segs.
-Proof.
-  induction segs as [|f r IH]; intros H; [reflexivity|].
-  rewrite !flat_cons. unfold content. rewrite (H f (or_introl eq_refl)).
-  f_equal. apply IH. intros g Hg. apply H. right. exact Hg.
-Qed.
-
-Lemma read_segs_flat : forall files segs, (forall f, In f segs -> exists es, fget files f = Some es) ->
-  read_segs files segs = Some (flat files segs).
-Proof.
-  induction segs as [|f r IH]; intros H; [reflexivity|].
-  cbn [read_segs]. destruct (H f (or_introl eq_refl)) as [es Hes]. rewrite Hes.
-  rewrite IH by (intros g Hg; apply H; right; exact Hg).
-  rewrite flat_cons. unfold content. rewrite Hes. reflexivity.
-Qed.
-
-(* appending to the active (= last listed, listed once) segment appends to the listed entries *)
-Lemma flat_fappend : forall files pre act es old,
-  ~ In act pre -> fget files act = Some old ->
-  flat (fappend files act es) (pre ++ [act]) = flat files (pre ++ [act]) ++ es.
-Proof.
-  intros files pre act es old Hn Hold. unfold fappend. rewrite Hold.
-  rewrite !flat_app. rewrite <- app_assoc. f_equal.
-  - apply flat_ext. intros f Hf. apply fget_fset_other. intro; subst; tauto.
-  - unfold flat. cbn [map concat]. rewrite !app_nil_r. unfold content.
-    rewrite fget_fset_same, Hold. reflexivity.
-Qed.
-
-(* ---------------------------------------------------------------------------------------------- *)
-(* compact_old_wal_segments                                                                         *)
-(* ---------------------------------------------------------------------------------------------- *)
-
-Lemma compact_cons2 : forall files last f g r,
-  compact files last (f :: g :: r) =
-  let '(k, d) := compact files last (g :: r) in
-  match fget files f with
-  | None => (k, d)
-  | Some es => if forallb (covered last) es then (k, f :: d) else (f :: k, d)
+Definition P (v : view) (p : phase) : Prop :=
+  match p with
+  | WAlloc _ base es => 1 <= base /\ (forall e, In e es -> base <= e_seq e /\ e_seq e < v_next v) /\
+                        StronglySorted N.lt (map e_seq es)
+  | SCaptured last copy => Cand v last copy
+  | SFile last copy f => Cand v last copy /\ FileOk v f last copy
+  | SLoaded last copy f segs =>
+      Cand v last copy /\ FileOk v f last copy /\ segs = m_segs (v_man v) /\ ptr_seq (v_man v) <= last
+  | SPtr last f segs => m_ptr (v_man v) = Some (f, last) /\ segs = m_segs (v_man v)
+  | SCompacted last f keep del => m_ptr (v_man v) = Some (f, last) /\ keep = m_segs (v_man v) /\ Dead v del
+  | SUnlinked last f keep => m_ptr (v_man v) = Some (f, last) /\ keep = m_segs (v_man v)
+  | _ => True
   end.
+
+Definition snapfid (p : phase) : option N :=
+  match p with SFile _ _ f | SLoaded _ _ f _ => Some f | _ => None end.
+
+Lemma In_flat : forall files segs e, In e (flat files segs) ->
+  exists f es, In f segs /\ fget files f = Some es /\ In e es.
+Proof.
+  induction segs as [|f r IH]; intros e H; [destruct H|].
+  rewrite flat_cons in H. apply in_app_or in H. destruct H as [H|H].
+  - unfold content in H. destruct (fget files f) as [es|] eqn:E; [|destruct H].
+    exists f, es. split; [left; reflexivity|auto].
+  - destruct (IH e H) as [g [es [H1 H2]]]. exists g, es. split; [right; exact H1|exact H2].
+Qed.
+
+Lemma last_notin_pre : forall (pre : list N) a, NoDup (pre ++ [a]) -> ~ In a pre.
+Proof.
+  intros pre a H Hin. apply NoDup_remove_2 in H. apply H. rewrite app_nil_r. exact Hin.
+Qed.
+
+Lemma NoDup_snoc : forall (l : list N) a, NoDup l -> ~ In a l -> NoDup (l ++ [a]).
+Proof.
+  induction l as [|x r IH]; intros a H Hn; cbn [app].
+  - constructor; [intros []|constructor].
+  - inversion H; subst. constructor.
+    + intro Hin. apply in_app_or in Hin. destruct Hin as [Hin|[Hin|[]]]; [tauto|subst; apply Hn; left; reflexivity].
+    + apply IH; [assumption|intro; apply Hn; right; assumption].
+Qed.
+
+(* ---------------------------------------------------------------------------------------------- *)
+(* View transitions                                                                                 *)
+(* ---------------------------------------------------------------------------------------------- *)
+
+Ltac vsimpl := cbn [v_hi v_tgt v_man v_files v_snaps v_fid v_next v_rot v_act listed m_segs m_ptr ptr_seq] in *.
+
+(* fetch_add *)
+Lemma T_alloc : forall v n,
+  GV v ->
+  let v' := mkV (v_hi v) (v_tgt v) (v_man v) (v_files v) (v_snaps v) (v_fid v) (v_next v + n) (v_rot v) (v_act v) in
+  GV v' /\ (forall q, P v q -> P v' q).
+Proof.
+  intros v n G v'. split.
+  - destruct G. constructor; subst v'; vsimpl; auto. lia.
+  - intros q Hq. destruct q; cbn [P] in *; auto.
+    destruct Hq as [H1 [H2 H3]]. split; [exact H1|]. split; [|exact H3]. intros e He. apply H2 in He. subst v'; vsimpl. lia.
+Qed.
+
+(* wal.append *)
+Lemma T_append : forall v es,
+  GV v -> (forall e, In e es -> v_hi v <= e_seq e /\ e_seq e < v_next v) ->
+  StronglySorted N.lt (map e_seq es) ->
+  let v' := mkV (v_next v) (apply_entries (v_tgt v) es) (v_man v) (fappend (v_files v) (v_act v) es)
+                (v_snaps v) (v_fid v) (v_next v) (v_rot v) (v_act v) in
+  GV v' /\ (forall q, P v q -> P v' q).
+Proof.
+  intros v es G Hes Hss v'.
+  destruct G as [[Gn1 Gn2] Gnd Gl [pre Gla] Gb Gp Gb0 Gb1 Gr Gs].
+  assert (Hact : exists old, fget (v_files v) (v_act v) = Some old).
+  { apply Gl. rewrite Gla. apply in_or_app. right. left. reflexivity. }
+  destruct Hact as [old Hold].
+  assert (Hnpre : ~ In (v_act v) pre) by (apply last_notin_pre; rewrite <- Gla; exact Gnd).
+  assert (Hlisted : listed v' = listed v ++ es).
+  { unfold listed. subst v'. vsimpl. rewrite Gla. eapply flat_fappend; eauto. }
+  assert (Hrep : forall l d, l < v_hi v -> replay l d (listed v) = v_tgt v ->
+                 replay l d (listed v') = apply_entries (v_tgt v) es).
+  { intros l d Hl Hr. rewrite Hlisted, replay_app, Hr. apply replay_uncovered.
+    intros e He. apply covered_above. apply Hes in He. lia. }
+  split.
+  - constructor; subst v'; vsimpl.
+    + lia.
+    + exact Gnd.
+    + intros f Hf. destruct (Gl f Hf) as [[es0 He0] Hlt]. split; [|exact Hlt].
+      unfold fappend. rewrite Hold. rewrite fget_fset. destruct (N.eqb (v_act v) f); eauto.
+    + exists pre. exact Gla.
+    + intros f es0 e Hf He. unfold fappend in Hf. rewrite Hold in Hf. rewrite fget_fset in Hf.
+      destruct (N.eqb (v_act v) f) eqn:E.
+      * inversion Hf; subst es0. apply in_app_or in He. destruct He as [He|He].
+        -- destruct (Gb _ _ _ Hold He). lia.
+        -- apply Hes in He. lia.
+      * destruct (Gb _ _ _ Hf He). lia.
+    + intros pf ps Hp. destruct (Gp pf ps Hp) as [H1 [H2 H3]]. repeat split; auto. lia.
+    + intros Hp. apply (Hrep 0 empty); [lia|auto].
+    + intros pf ps docs Hp Hs. destruct (Gp pf ps Hp) as [H1 _]. apply (Hrep ps docs); eauto.
+    + intros nf Hnf. destruct (Gr nf Hnf) as [H1 [H2 H3]]. repeat split; auto.
+      unfold fappend. rewrite Hold. rewrite fget_fset_other; [exact H1|].
+      intro; subst nf. apply H3. rewrite Gla. apply in_or_app. right. left. reflexivity.
+    + rewrite Hlisted, map_app. apply sorted_app; [exact Gs|exact Hss|].
+      intros x y Hx Hy. apply in_map_iff in Hx, Hy. destruct Hx as [e1 [E1 I1]]. destruct Hy as [e2 [E2 I2]]. subst x y.
+      apply In_flat in I1. destruct I1 as [g [es1 [_ [F1 F2]]]]. destruct (Gb _ _ _ F1 F2). apply Hes in I2. lia.
+  - intros q Hq.
+    assert (HC : forall last copy, Cand v last copy -> Cand v' last copy).
+    { intros last copy [C1 C2]. split; [subst v'; vsimpl; lia|].
+      intros Hle. change (v_tgt v') with (apply_entries (v_tgt v) es). apply Hrep; auto. }
+    destruct q; cbn [P] in *; auto.
+    + destruct Hq as [C F]. split; [apply HC; exact C|exact F].
+    + destruct Hq as [C [F R]]. split; [apply HC; exact C|]. split; [exact F|exact R].
+Qed.
+
+(* WalWriter::create for the next segment *)
+Lemma T_rotcreate : forall v,
+  GV v ->
+  let v' := mkV (v_hi v) (v_tgt v) (v_man v) (fset (v_files v) (v_fid v) []) (v_snaps v) (v_fid v + 1)
+                (v_next v) (Some (v_fid v)) (v_act v) in
+  GV v' /\ (forall q, P v q -> P v' q).
+Proof.
+  intros v G v'.
+  destruct G as [[Gn1 Gn2] Gnd Gl [pre Gla] Gb Gp Gb0 Gb1 Gr Gs].
+  assert (Hlisted : listed v' = listed v).
+  { unfold listed. subst v'. vsimpl. apply flat_ext. intros f Hf. apply fget_fset_other.
+    destruct (Gl f Hf) as [_ Hlt]. lia. }
+  split.
+  - constructor; subst v'; vsimpl; auto.
+    + intros f Hf. destruct (Gl f Hf) as [[es0 He0] Hlt]. split; [|lia].
+      rewrite fget_fset_other by lia. eauto.
+    + exists pre. exact Gla.
+    + intros f es0 e Hf He. rewrite fget_fset in Hf. destruct (N.eqb (v_fid v) f).
+      * inversion Hf; subst es0. destruct He.
+      * eapply Gb; eauto.
+    + intros pf ps Hp. destruct (Gp pf ps Hp) as [H1 [H2 H3]]. repeat split; auto. lia.
+    + intros Hp. rewrite Hlisted. auto.
+    + intros pf ps docs Hp Hs. rewrite Hlisted. eauto.
+    + intros nf Hnf. inversion Hnf; subst nf. rewrite fget_fset_same. repeat split; [lia|].
+      intro Hin. destruct (Gl _ Hin) as [_ Hlt]. lia.
+    + rewrite Hlisted. exact Gs.
+  - intros q Hq.
+    assert (HC : forall last copy, Cand v last copy -> Cand v' last copy).
+    { intros last copy [C1 C2]. split; [exact C1|]. intros Hle. rewrite Hlisted. apply C2. exact Hle. }
+    assert (HF : forall f last copy, FileOk v f last copy -> FileOk v' f last copy).
+    { intros f last copy [F1 [F2 F3]]. repeat split; auto. subst v'; vsimpl. lia. }
+    destruct q; cbn [P] in *; auto.
+    + destruct Hq as [C F]. split; auto.
+    + destruct Hq as [C [F R]]. split; auto.
+    + destruct Hq as [H1 [H2 H3]]. split; [exact H1|]. split; [exact H2|].
+      intros d0 Hd. destruct (H3 d0 Hd) as [D1 [D2 D3]]. subst v'; vsimpl. repeat split; auto; [|lia].
+      intro Heq. inversion Heq. lia.
+Qed.
+
+(* rotate: manifest_lock { load; push; save }; switch the writer *)
+Lemma T_rotman : forall v nf,
+  GV v -> v_rot v = Some nf ->
+  let v' := mkV (v_hi v) (v_tgt v) (mkMan (m_ptr (v_man v)) (m_segs (v_man v) ++ [nf])) (v_files v) (v_snaps v)
+                (v_fid v) (v_next v) None nf in
+  GV v' /\ (forall q, holds_mlock q = false -> P v q -> P v' q).
+Proof.
+  intros v nf G Hrot v'.
+  destruct G as [[Gn1 Gn2] Gnd Gl [pre Gla] Gb Gp Gb0 Gb1 Gr Gs].
+  destruct (Gr nf Hrot) as [R1 [R2 R3]].
+  assert (Hlisted : listed v' = listed v).
+  { unfold listed. subst v'. vsimpl. rewrite flat_app. unfold flat at 2. cbn [map concat].
+    unfold content. rewrite R1. rewrite !app_nil_r. reflexivity. }
+  split.
+  - constructor; subst v'; vsimpl; auto.
+    + apply NoDup_snoc; assumption.
+    + intros f Hf. apply in_app_or in Hf. destruct Hf as [Hf|[Hf|[]]]; [apply Gl; exact Hf|subst f; eauto].
+    + exists (m_segs (v_man v)). reflexivity.
+    + intros Hp. rewrite Hlisted. auto.
+    + intros pf ps docs Hp Hs. rewrite Hlisted. eauto.
+    + intros x Hx. discriminate.
+    + rewrite Hlisted. exact Gs.
+  - intros q Hm Hq.
+    assert (HC : forall last copy, Cand v last copy -> Cand v' last copy).
+    { intros last copy [C1 C2]. split; [exact C1|]. intros Hle. rewrite Hlisted. apply C2. exact Hle. }
+    destruct q; cbn [P holds_mlock] in *; auto; try discriminate.
+    destruct Hq as [C F]. split; auto.
+Qed.
+
+(* Snapshot::save *)
+Lemma T_savefile : forall v last copy,
+  GV v -> Cand v last copy ->
+  let v' := mkV (v_hi v) (v_tgt v) (v_man v) (v_files v) (fset (v_snaps v) (v_fid v) (last, copy)) (v_fid v + 1)
+                (v_next v) (v_rot v) (v_act v) in
+  GV v' /\ P v' (SFile last copy (v_fid v)) /\
+  (forall q, P v q -> P v' q /\ (forall f, snapfid q = Some f -> f <> v_fid v)).
+Proof.
+  intros v last copy G HC v'.
+  destruct G as [[Gn1 Gn2] Gnd Gl [pre Gla] Gb Gp Gb0 Gb1 Gr Gs].
+  split; [|split].
+  - constructor; subst v'; vsimpl; auto.
+    + intros f Hf. destruct (Gl f Hf) as [E Hlt]. split; [exact E|lia].
+    + exists pre. exact Gla.
+    + intros pf ps Hp. destruct (Gp pf ps Hp) as [H1 [H2 [docs H3]]]. repeat split; auto; [lia|].
+      exists docs. rewrite fget_fset_other by lia. exact H3.
+    + intros pf ps docs Hp Hs. destruct (Gp pf ps Hp) as [H1 [H2 _]].
+      rewrite fget_fset_other in Hs by lia. eauto.
+    + intros nf Hnf. destruct (Gr nf Hnf) as [H1 [H2 H3]]. repeat split; auto. lia.
+  - cbn [P]. split; [exact HC|]. unfold FileOk. subst v'; vsimpl. rewrite fget_fset_same.
+    split; [reflexivity|]. split; [lia|]. intros pf ps Hp. destruct (Gp pf ps Hp) as [_ [H2 _]]. lia.
+  - intros q Hq.
+    assert (HF : forall f l c, FileOk v f l c -> FileOk v' f l c /\ f <> v_fid v).
+    { intros f l c [F1 [F2 F3]]. split; [|lia]. unfold FileOk. subst v'; vsimpl.
+      rewrite fget_fset_other by lia. repeat split; auto. lia. }
+    destruct q; cbn [P snapfid] in *; try (split; [exact Hq|intros; discriminate]).
+    + destruct Hq as [C F]. destruct (HF _ _ _ F) as [F' Hne]. split; [split; auto|].
+      intros f0 Hf0. inversion Hf0; subst. exact Hne.
+    + destruct Hq as [C [F R]]. destruct (HF _ _ _ F) as [F' Hne]. split; [split; auto|].
+      intros f0 Hf0. inversion Hf0; subst. exact Hne.
+    + destruct Hq as [H1 [H2 H3]]. split; [|intros; discriminate]. split; [exact H1|]. split; [exact H2|].
+      intros d0 Hd. destruct (H3 d0 Hd) as [D1 [D2 D3]]. subst v'; vsimpl. repeat split; auto. lia.
+Qed.
+
+(* stale snapshot: remove_file(new snapshot) *)
+Lemma T_stale : forall v f last copy,
+  GV v -> FileOk v f last copy ->
+  let v' := mkV (v_hi v) (v_tgt v) (v_man v) (v_files v) (fdel (v_snaps v) f) (v_fid v)
+                (v_next v) (v_rot v) (v_act v) in
+  GV v' /\ (forall q, snapfid q <> Some f -> P v q -> P v' q).
+Proof.
+  intros v f last copy G [F1 [F2 F3]] v'.
+  destruct G as [[Gn1 Gn2] Gnd Gl [pre Gla] Gb Gp Gb0 Gb1 Gr Gs].
+  split.
+  - constructor; subst v'; vsimpl; auto.
+    + exists pre. exact Gla.
+    + intros pf ps Hp. destruct (Gp pf ps Hp) as [H1 [H2 [docs H3]]]. repeat split; auto.
+      exists docs. rewrite fget_fdel_other; [exact H3|]. intro; subst. eapply F3; eauto.
+    + intros pf ps docs Hp Hs. rewrite fget_fdel in Hs. destruct (N.eqb f pf); [discriminate|]. eauto.
+  - intros q Hne Hq.
+    assert (HF : forall f' l c, f' <> f -> FileOk v f' l c -> FileOk v' f' l c).
+    { intros f' l c Hn [A1 [A2 A3]]. unfold FileOk. subst v'; vsimpl.
+      rewrite fget_fdel_other by (intro; subst; tauto). repeat split; auto. }
+    destruct q; cbn [P snapfid] in *; auto.
+    + destruct Hq as [C F]. split; [exact C|]. apply HF; [intro; subst; tauto|exact F].
+    + destruct Hq as [C [F R]]. split; [exact C|]. split; [|exact R]. apply HF; [intro; subst; tauto|exact F].
+Qed.
+
+(* manifest.save with the new pointer and the full list *)
+Lemma T_ptr : forall v last copy f segs,
+  GV v -> P v (SLoaded last copy f segs) ->
+  let v' := mkV (v_hi v) (v_tgt v) (mkMan (Some (f, last)) segs) (v_files v) (v_snaps v) (v_fid v)
+                (v_next v) (v_rot v) (v_act v) in
+  GV v' /\ P v' (SPtr last f segs) /\ ptr_seq (v_man v) <= ptr_seq (v_man v') /\
+  (forall q, snapfid q <> Some f -> holds_mlock q = false -> P v q -> P v' q).
+Proof.
+  intros v last copy f segs G Hp v'. cbn [P] in Hp.
+  destruct Hp as [[C1 C2] [[F1 [F2 F3]] [Hs Hle]]].
+  destruct G as [[Gn1 Gn2] Gnd Gl [pre Gla] Gb Gp Gb0 Gb1 Gr Gs].
+  assert (Hlisted : listed v' = listed v) by (unfold listed; subst v' segs; reflexivity).
+  split; [|split; [|split]].
+  - constructor; subst v'; vsimpl; subst segs; auto.
+    + exists pre. exact Gla.
+    + intros pf ps Hp. inversion Hp; subst pf ps. repeat split; auto. eauto.
+    + intros Hp. discriminate.
+    + intros pf ps docs Hp Hsn. inversion Hp; subst pf ps. rewrite F1 in Hsn. inversion Hsn; subst docs.
+      apply C2. exact Hle.
+  - cbn [P]. subst v'; vsimpl. auto.
+  - subst v'; vsimpl. exact Hle.
+  - intros q Hne Hm Hq.
+    assert (HC : forall l c, Cand v l c -> Cand v' l c).
+    { intros l c [A1 A2]. split; [exact A1|]. intros Hl. rewrite Hlisted. apply A2.
+      subst v'; vsimpl. lia. }
+    assert (HF : forall f' l c, f' <> f -> FileOk v f' l c -> FileOk v' f' l c).
+    { intros f' l c Hn [A1 [A2 A3]]. unfold FileOk. subst v'; vsimpl. repeat split; auto.
+      intros pf ps Hpp. inversion Hpp; subst. auto. }
+    destruct q; cbn [P snapfid holds_mlock] in *; auto; try discriminate.
+    destruct Hq as [C F]. split; [apply HC; exact C|]. apply HF; [intro; subst; tauto|exact F].
+Qed.
+
+(* compact_old_wal_segments: decide, publish the pruned list *)
+Lemma T_compact : forall v last f segs keep del,
+  GV v -> P v (SPtr last f segs) -> compact (v_files v) last segs = (keep, del) ->
+  let v' := mkV (v_hi v) (v_tgt v) (mkMan (Some (f, last)) keep) (v_files v) (v_snaps v) (v_fid v)
+                (v_next v) (v_rot v) (v_act v) in
+  GV v' /\ P v' (SCompacted last f keep del) /\ (del = [] -> v_man v = mkMan (Some (f, last)) keep) /\
+  (forall q, holds_mlock q = false -> P v q -> P v' q).
+Proof.
+  intros v last f segs keep del G Hp Hc v'. cbn [P] in Hp. destruct Hp as [Hptr Hs].
+  destruct G as [[Gn1 Gn2] Gnd Gl [pre Gla] Gb Gp Gb0 Gb1 Gr Gs].
+  subst segs.
+  destruct (compact_sub _ _ _ _ _ Hc) as [S1 S2].
+  destruct (compact_nodup _ _ _ _ _ Gnd Hc) as [N1 N2].
+  destruct (compact_last _ _ _ _ _ _ _ Hc Gla) as [pre' Hk].
+  assert (Hrep : forall l d, last <= l -> replay l d (listed v') = replay l d (listed v)).
+  { intros l d Hl. unfold listed. subst v'; vsimpl. eapply compact_replay; eauto. }
+  split; [|split; [|split]].
+  - constructor; subst v'; vsimpl; auto.
+    + exists pre'. exact Hk.
+    + intros pf ps Hp. inversion Hp; subst pf ps. apply Gp. exact Hptr.
+    + intros Hp. discriminate.
+    + intros pf ps docs Hp Hsn. inversion Hp; subst pf ps.
+      rewrite (Hrep last docs) by lia. eapply Gb1; eauto.
+    + intros nf Hnf. destruct (Gr nf Hnf) as [H1 [H2 H3]]. repeat split; auto.
+    + eapply compact_sorted; eauto.
+  - cbn [P]. subst v'; vsimpl. split; [reflexivity|]. split; [reflexivity|].
+    intros d0 Hd. split; [apply N2; exact Hd|]. split.
+    + intro Hr. destruct (Gr d0 Hr) as [_ [_ H3]]. apply H3. apply S2. exact Hd.
+    + apply Gl. apply S2. exact Hd.
+  - intros Hd. subst del. apply compact_nil in Hc; [|intros g Hg; apply Gl; exact Hg].
+    subst keep. destruct (v_man v) as [p s]. cbn [m_ptr m_segs] in *. subst p. reflexivity.
+  - intros q Hm Hq.
+    assert (Hps : ptr_seq (v_man v) = last) by (unfold ptr_seq; rewrite Hptr; reflexivity).
+    assert (HC : forall l c, Cand v l c -> Cand v' l c).
+    { intros l c [A1 A2]. split; [exact A1|]. intros Hl.
+      assert (Hl' : last <= l) by (subst v'; vsimpl; exact Hl).
+      rewrite (Hrep l c Hl'). apply A2. rewrite Hps. exact Hl'. }
+    assert (HF : forall f' l c, FileOk v f' l c -> FileOk v' f' l c).
+    { intros f' l c [A1 [A2 A3]]. unfold FileOk. subst v'; vsimpl. repeat split; auto.
+      intros pf ps Hpp. inversion Hpp; subst. eapply A3; eauto. }
+    destruct q; cbn [P holds_mlock] in *; auto; try discriminate.
+    destruct Hq as [C F]. split; auto.
+Qed.
+
+(* remove_file for every segment to delete *)
+Lemma T_unlink : forall v last f keep del,
+  GV v -> P v (SCompacted last f keep del) ->
+  let v' := mkV (v_hi v) (v_tgt v) (v_man v) (unlink_all (v_files v) del) (v_snaps v) (v_fid v)
+                (v_next v) (v_rot v) (v_act v) in
+  GV v' /\ P v' (SUnlinked last f keep) /\ (forall q, holds_mlock q = false -> P v q -> P v' q).
+Proof.
+  intros v last f keep del G Hp v'. cbn [P] in Hp. destruct Hp as [Hptr [Hk HD]].
+  destruct G as [[Gn1 Gn2] Gnd Gl [pre Gla] Gb Gp Gb0 Gb1 Gr Gs].
+  assert (Hnot : forall g, In g (m_segs (v_man v)) -> ~ In g del).
+  { intros g Hg Hd. destruct (HD g Hd) as [D1 _]. tauto. }
+  assert (Hlisted : listed v' = listed v).
+  { unfold listed. subst v'; vsimpl. apply flat_ext. intros g Hg. apply fget_unlink_notin. auto. }
+  split; [|split].
+  - constructor; subst v'; vsimpl; auto.
+    + intros g Hg. destruct (Gl g Hg) as [E Hlt]. split; [|exact Hlt].
+      rewrite fget_unlink_notin by auto. exact E.
+    + exists pre. exact Gla.
+    + intros g es e Hg He. apply fget_unlink_some in Hg. eauto.
+    + intros Hp. rewrite Hlisted. auto.
+    + intros pf ps docs Hp Hs. rewrite Hlisted. eauto.
+    + intros nf Hnf. destruct (Gr nf Hnf) as [H1 [H2 H3]]. repeat split; auto.
+      rewrite fget_unlink_notin; [exact H1|]. intro Hd. destruct (HD nf Hd) as [_ [D2 _]]. tauto.
+    + rewrite Hlisted. exact Gs.
+  - cbn [P]. subst v'; vsimpl. auto.
+  - intros q Hm Hq.
+    assert (HC : forall l c, Cand v l c -> Cand v' l c).
+    { intros l c [A1 A2]. split; [exact A1|]. intros Hl. rewrite Hlisted. apply A2. exact Hl. }
+    destruct q; cbn [P holds_mlock] in *; auto; try discriminate.
+    destruct Hq as [C F]. split; auto.
+Qed.
+
+(* the capture: snapshot_lock.write() { last := next - 1; copy := store } with no writer in flight *)
+Lemma T_capture : forall v, GV v -> v_hi v = v_next v -> P v (SCaptured (v_next v - 1) (v_tgt v)).
+Proof.
+  intros v G Hhi. destruct G as [[Gn1 Gn2] Gnd Gl [pre Gla] Gb Gp Gb0 Gb1 Gr Gs].
+  cbn [P]. split; [lia|]. intros _. apply replay_covered_all. apply forallb_forall. intros e He.
+  apply In_flat in He. destruct He as [g [es [H1 [H2 H3]]]]. destruct (Gb _ _ _ H2 H3) as [B1 B2].
+  apply covered_below; lia.
+Qed.
+
+(* ---------------------------------------------------------------------------------------------- *)
+(* Lock owners and the invariant                                                                    *)
+(* ---------------------------------------------------------------------------------------------- *)
+
+Definition Link (h : phase -> bool) (o : option nat) (thr : list (nat * phase)) : Prop :=
+  (forall t, h (tget thr t) = true -> o = Some t) /\ (forall t, o = Some t -> h (tget thr t) = true).
+
+Lemma link_keep : forall h o thr t p1, Link h o thr -> h p1 = h (tget thr t) -> Link h o (tset thr t p1).
+Proof.
+  intros h o thr t p1 [L1 L2] He. split; intros t' H.
+  - rewrite tget_tset in H. destruct (Nat.eqb t t') eqn:E.
+    + apply Nat.eqb_eq in E; subst t'. apply L1. rewrite <- He. exact H.
+    + apply L1. exact H.
+  - rewrite tget_tset. destruct (Nat.eqb t t') eqn:E.
+    + apply Nat.eqb_eq in E; subst t'. rewrite He. apply L2. exact H.
+    + apply L2. exact H.
+Qed.
+
+Lemma link_none : forall h thr t, Link h None thr -> h (tget thr t) = false.
+Proof. intros h thr t [L1 _]. destruct (h (tget thr t)) eqn:E; [apply L1 in E; discriminate|reflexivity]. Qed.
+
+Lemma link_other : forall h t thr t', Link h (Some t) thr -> t' <> t -> h (tget thr t') = false.
+Proof.
+  intros h t thr t' [L1 _] Hne. destruct (h (tget thr t')) eqn:E; [|reflexivity].
+  apply L1 in E. inversion E. subst. tauto.
+Qed.
+
+Lemma link_acq : forall h thr t p1, Link h None thr -> h p1 = true -> Link h (Some t) (tset thr t p1).
+Proof.
+  intros h thr t p1 L Hp. split; intros t' H.
+  - rewrite tget_tset in H. destruct (Nat.eqb t t') eqn:E.
+    + apply Nat.eqb_eq in E; subst; reflexivity.
+    + rewrite (link_none _ _ t' L) in H. discriminate.
+  - inversion H; subst t'. rewrite tget_tset_same. exact Hp.
+Qed.
+
+Lemma link_rel : forall h thr t p1, Link h (Some t) thr -> h p1 = false -> Link h None (tset thr t p1).
+Proof.
+  intros h thr t p1 L Hp. split; intros t' H; [|discriminate].
+  rewrite tget_tset in H. destruct (Nat.eqb t t') eqn:E.
+  - rewrite Hp in H. discriminate.
+  - apply Nat.eqb_neq in E. rewrite (link_other _ _ _ t' L) in H by auto. discriminate.
+Qed.
+
+Definition Distinct (thr : list (nat * phase)) : Prop :=
+  forall t1 t2 f, t1 <> t2 -> snapfid (tget thr t1) = Some f -> snapfid (tget thr t2) = Some f -> False.
+
+Record Inv (st : state) : Prop := mkInv {
+  inv_gate : Link holds_gate (st_gate st) (st_thr st);
+  inv_mlock : Link holds_mlock (st_mlock st) (st_thr st);
+  inv_gv : GV (view_of st);
+  inv_p : forall t, P (view_of st) (tget (st_thr st) t);
+  inv_dist : Distinct (st_thr st)
+}.
+
+Lemma assemble : forall st st' t p1,
+  Inv st ->
+  st_thr st' = tset (st_thr st) t p1 ->
+  Link holds_gate (st_gate st') (st_thr st') ->
+  Link holds_mlock (st_mlock st') (st_thr st') ->
+  GV (view_of st') ->
+  P (view_of st') p1 ->
+  (forall t', t' <> t -> P (view_of st') (tget (st_thr st) t')) ->
+  (forall f t', snapfid p1 = Some f -> t' <> t -> snapfid (tget (st_thr st) t') <> Some f) ->
+  Inv st'.
+Proof.
+  intros st st' t p1 I Ht Lg Lm G Pn Po Df. constructor; auto.
+  - intros t'. rewrite Ht, tget_tset. destruct (Nat.eqb t t') eqn:E; [exact Pn|].
+    apply Po. apply Nat.eqb_neq in E. auto.
+  - intros t1 t2 f Hne H1 H2. rewrite Ht in H1, H2. rewrite tget_tset in H1, H2.
+    destruct (Nat.eqb t t1) eqn:E1; destruct (Nat.eqb t t2) eqn:E2.
+    + apply Nat.eqb_eq in E1, E2. subst. tauto.
+    + apply Nat.eqb_eq in E1. subst t1. eapply Df; eauto.
+    + apply Nat.eqb_eq in E2. subst t2. eapply Df; eauto.
+    + eapply (inv_dist _ I); eauto.
+Qed.
+
+Lemma dist_self : forall st t f t', Inv st -> snapfid (tget (st_thr st) t) = Some f -> t' <> t ->
+  snapfid (tget (st_thr st) t') <> Some f.
+Proof. intros st t f t' I H Hne H'. eapply (inv_dist _ I); eauto. Qed.
+
+(* --- the view after a step --- *)
+
+Lemma cur_nonowner : forall st st1 t p1,
+  Link holds_gate (st_gate st) (st_thr st) ->
+  holds_gate (tget (st_thr st) t) = false ->
+  st_gate st1 = st_gate st -> st_thr st1 = st_thr st ->
+  cur (set_thr st1 t p1) = cur st.
+Proof.
+  intros st st1 t p1 [L1 L2] Hf Hg Ht. unfold cur, set_thr. cbn [st_gate st_thr]. rewrite Hg, Ht.
+  destruct (st_gate st) as [g|]; [|reflexivity].
+  rewrite tget_tset_other; [reflexivity|]. intro; subst g. rewrite (L2 t eq_refl) in Hf. discriminate.
+Qed.
+
+Lemma cur_owner_after : forall st1 t p1, st_gate st1 = Some t -> cur (set_thr st1 t p1) = p1.
+Proof. intros. unfold cur, set_thr. cbn [st_gate st_thr]. rewrite H. apply tget_tset_same. Qed.
+
+Lemma cur_owner_before : forall st t, Link holds_gate (st_gate st) (st_thr st) ->
+  holds_gate (tget (st_thr st) t) = true -> st_gate st = Some t /\ cur st = tget (st_thr st) t.
+Proof. intros st t [L1 _] H. apply L1 in H. split; [exact H|]. unfold cur. rewrite H. reflexivity. Qed.
+
+Lemma cur_free_after : forall st1 t p1, st_gate st1 = None -> cur (set_thr st1 t p1) = Idle.
+Proof. intros. unfold cur, set_thr. cbn [st_gate]. rewrite H. reflexivity. Qed.
+
+Lemma view_of_set : forall st1 t p1,
+  view_of (set_thr st1 t p1) =
+  mkV (hi_of (st_next st1) (cur (set_thr st1 t p1)))
+      (apply_entries (st_store st1) (pend_of (cur (set_thr st1 t p1))))
+      (st_man st1) (st_files st1) (st_snaps st1) (st_fid st1) (st_next st1)
+      (rot_of (cur (set_thr st1 t p1))) (st_active st1).
 Proof. reflexivity. Qed.
 
-Lemma compact_sub : forall files last segs keep del, compact files last segs = (keep, del) ->
-  (forall x, In x keep -> In x segs) /\ (forall x, In x del -> In x segs).
+(* a step that leaves the view unchanged *)
+Lemma assemble_same : forall st st1 t p1,
+  Inv st ->
+  Link holds_gate (st_gate st1) (tset (st_thr st1) t p1) ->
+  Link holds_mlock (st_mlock st1) (tset (st_thr st1) t p1) ->
+  st_thr st1 = st_thr st ->
+  view_of (set_thr st1 t p1) = view_of st ->
+  P (view_of st) p1 ->
+  (snapfid p1 = None \/ snapfid p1 = snapfid (tget (st_thr st) t)) ->
+  Inv (set_thr st1 t p1).
 Proof.
-  induction segs as [|f r IH]; intros keep del H.
-  - inversion H; subst. split; intros x [].
-  - destruct r as [|g r'].
-    + inversion H; subst. split; [intros x Hx; exact Hx|intros x []].
-    + rewrite compact_cons2 in H. destruct (compact files last (g :: r')) as [k d] eqn:E.
-      destruct (IH k d eq_refl) as [IH1 IH2].
-      destruct (fget files f) as [es|].
-      * destruct (forallb (covered last) es); inversion H; subst; split; intros x Hx.
-        -- right. auto.
-        -- destruct Hx as [Hx|Hx]; [left; exact Hx|right; auto].
-        -- destruct Hx as [Hx|Hx]; [left; exact Hx|right; auto].
-        -- right. auto.
-      * inversion H; subst. split; intros x Hx; right; auto.
-Qed.
-
-Lemma compact_nodup : forall files last segs keep del, NoDup segs -> compact files last segs = (keep, del) ->
-  NoDup keep /\ (forall x, In x del -> ~ In x keep).
-Proof.
-  induction segs as [|f r IH]; intros keep del Hnd H.
-  - inversion H; subst. split; [constructor|intros x []].
-  - destruct r as [|g r'].
-    + inversion H; subst. split; [exact Hnd|intros x []].
-    + rewrite compact_cons2 in H. destruct (compact files last (g :: r')) as [k d] eqn:E.
-      inversion Hnd as [|? ? Hnf Hnd']; subst.
-      destruct (IH k d Hnd' eq_refl) as [IH1 IH2].
-      destruct (compact_sub _ _ _ _ _ E) as [S1 S2].
-      destruct (fget files f) as [es|].
-      * destruct (forallb (covered last) es); inversion H; subst; split.
-        -- exact IH1.
-        -- intros x [Hx|Hx]; [subst; intro Hk; apply Hnf; auto|auto].
-        -- constructor; [intro Hk; apply Hnf; auto|exact IH1].
-        -- intros x Hx [Hk|Hk]; [subst; apply Hnf; auto|eapply IH2; eauto].
-      * inversion H; subst. split; auto.
-Qed.
-
-Lemma compact_last : forall files last segs keep del pre a, compact files last segs = (keep, del) ->
-  segs = pre ++ [a] -> exists pre', keep = pre' ++ [a].
-Proof.
-  induction segs as [|f r IH]; intros keep del pre a H Hs.
-  - destruct pre; discriminate.
-  - destruct r as [|g r'].
-    + inversion H; subst. destruct pre as [|x pre]; [inversion Hs; subst; exists []; reflexivity|].
-      inversion Hs. destruct pre; discriminate.
-    + rewrite compact_cons2 in H. destruct (compact files last (g :: r')) as [k d] eqn:E.
-      destruct pre as [|x pre]; [discriminate|]. inversion Hs; subst x.
-      destruct (IH k d pre a eq_refl H2) as [pre' Hk].
-      destruct (fget files f) as [es|].
-      * destruct (forallb (covered last) es); inversion H; subst.
-        -- exists pre'. reflexivity.
-        -- exists (f :: pre'). reflexivity.
-      * inversion H; subst. exists pre'. reflexivity.
-Qed.
-
-Lemma compact_replay : forall files last last' segs keep del d, last <= last' ->
-  compact files last segs = (keep, del) ->
-  replay last' d (flat files keep) = replay last' d (flat files segs).
-Proof.
-  induction segs as [|f r IH]; intros keep del d Hle H.
-  - inversion H; subst. reflexivity.
-  - destruct r as [|g r'].
-    + inversion H; subst. reflexivity.
-    + rewrite compact_cons2 in H. destruct (compact files last (g :: r')) as [k dl] eqn:E.
-      rewrite (flat_cons files f (g :: r')), replay_app.
-      destruct (fget files f) as [es|] eqn:Ef.
-      * destruct (forallb (covered last) es) eqn:Ec; inversion H; subst.
-        -- unfold content. rewrite Ef. rewrite (replay_covered_all last' es) by (eapply forallb_covered_mono; eauto).
-           eapply IH; eauto.
-        -- rewrite flat_cons, replay_app. eapply IH; eauto.
-      * inversion H; subst. unfold content. rewrite Ef. cbn [replay fold_left]. eapply IH; eauto.
-Qed.
-
-Lemma compact_nil : forall files last segs keep, (forall f, In f segs -> exists es, fget files f = Some es) ->
-  compact files last segs = (keep, []) -> keep = segs.
-Proof.
-  induction segs as [|f r IH]; intros keep Hex H.
-  - inversion H; reflexivity.
-  - destruct r as [|g r'].
-    + inversion H; reflexivity.
-    + rewrite compact_cons2 in H. destruct (compact files last (g :: r')) as [k dl] eqn:E.
-      destruct (Hex f (or_introl eq_refl)) as [es Hes]. rewrite Hes in H.
-      destruct (forallb (covered last) es); inversion H; subst.
-      f_equal. apply IH; [intros x Hx; apply Hex; right; exact Hx|reflexivity].
+  intros st st1 t p1 I Lg Lm Ht Hv Pn Hs.
+  apply (assemble st (set_thr st1 t p1) t p1 I); cbn [set_thr st_thr st_gate st_mlock]; auto.
+  - rewrite Ht. reflexivity.
+  - rewrite Hv. exact (inv_gv _ I).
+  - rewrite Hv. exact Pn.
+  - intros t' _. rewrite Hv. apply (inv_p _ I).
+  - intros f t' Hf Hne. destruct Hs as [Hs|Hs]; [rewrite Hs in Hf; discriminate|].
+    rewrite Hs in Hf. eapply dist_self; eauto.
 Qed.
 
 (* ---------------------------------------------------------------------------------------------- *)
-(* mk_entries                                                                                       *)
+(* Every step preserves the invariant                                                               *)
 (* ---------------------------------------------------------------------------------------------- *)
 
-Lemma mk_entries_bounds : forall ops base e, In e (mk_entries base ops) ->
-  base <= e_seq e /\ e_seq e < base + N.of_nat (length ops).
+Ltac fin H := inversion H; subst; clear H.
+Ltac stf := cbn [st_next st_store st_slots st_cnt st_active st_bytes st_files st_snaps st_man st_fid st_gate st_mlock st_thr] in *.
+Ltac keepl Hp := unfold set_thr; stf; apply link_keep; [assumption|rewrite Hp; reflexivity].
+Ltac cur_no I Hp :=
+  match type of I with Inv ?s =>
+    rewrite (cur_nonowner s) by (stf; first [assumption | rewrite Hp; reflexivity | reflexivity]) end.
+Ltac view_no I Hp := rewrite view_of_set; cur_no I Hp; reflexivity.
+
+Lemma no_readers_gate_free : forall st, Link holds_gate (st_gate st) (st_thr st) -> no_readers st = true -> st_gate st = None.
 Proof.
-  induction ops as [|o r IH]; intros base e H; [destruct H|].
-  cbn [mk_entries] in H. cbn [length]. rewrite Nat2N.inj_succ. destruct H as [H|H].
-  - subst e. cbn [e_seq]. lia.
-  - apply IH in H. lia.
+  intros st [L1 L2] H. destruct (st_gate st) as [g|] eqn:E; [|reflexivity].
+  pose proof (L2 g eq_refl) as Hg. unfold no_readers in H.
+  pose proof (forallb_tget (fun p => negb (holds_snapR p)) (st_thr st) eq_refl H g) as Hr.
+  cbn beta in Hr. destruct (tget (st_thr st) g); cbn in Hg, Hr; discriminate.
+Qed.
+
+Lemma view_of_cur : forall st p, cur st = p ->
+  view_of st = mkV (hi_of (st_next st) p) (apply_entries (st_store st) (pend_of p)) (st_man st) (st_files st)
+                   (st_snaps st) (st_fid st) (st_next st) (rot_of p) (st_active st).
+Proof. intros; subst; reflexivity. Qed.
+
+Ltac own I Lg Hp Hc t :=
+  let Hg := fresh "Hg" in
+  match type of I with Inv ?s =>
+    destruct (cur_owner_before s t Lg) as [Hg Hc]; [stf; rewrite Hp; reflexivity|]; stf; rewrite Hp in Hc; subst
+  end.
+Ltac vsimp := cbn [v_hi v_tgt v_man v_files v_snaps v_fid v_next v_rot v_act hi_of pend_of rot_of] in *.
+
+Lemma tstep_inv : forall c st t st1 p1 ls,
+  Inv st -> tstep c st t (tget (st_thr st) t) = Some (st1, p1, ls) -> Inv (set_thr st1 t p1).
+Proof.
+  intros c st t st1 p1 ls I H.
+  pose proof (inv_gate _ I) as Lg. pose proof (inv_mlock _ I) as Lm.
+  pose proof (inv_gv _ I) as G. pose proof (inv_p _ I t) as Pt.
+  destruct st as [nx sto slots cnt act bytes files snaps man fid gate mlock thr].
+  stf.
+  destruct (tget thr t) eqn:Hp; cbn [tstep] in H.
+  - (* Idle *) discriminate.
+  - (* WWant *) fin H.
+    apply (assemble_same _ _ _ _ I); [keepl Hp|keepl Hp|reflexivity|view_no I Hp|exact Logic.I|left; reflexivity].
+  - (* WSnapR *)
+    destruct gate as [g|]; [discriminate|].
+    destruct (is_ins c0 && (c_cap c <=? slots)).
+    + fin H. apply (assemble_same _ _ _ _ I); [keepl Hp|keepl Hp|reflexivity|view_no I Hp|exact Logic.I|left; reflexivity].
+    + destruct (preflight sto c0) as [|o ops] eqn:Epre.
+      * fin H. apply (assemble_same _ _ _ _ I); [keepl Hp|keepl Hp|reflexivity|view_no I Hp|exact Logic.I|left; reflexivity].
+      * fin H. apply (assemble_same _ _ _ _ I).
+        -- stf. apply link_acq; [assumption|reflexivity].
+        -- keepl Hp.
+        -- reflexivity.
+        -- rewrite view_of_set, cur_owner_after by reflexivity. reflexivity.
+        -- exact Logic.I.
+        -- left; reflexivity.
+  - (* WFull *)
+    destruct (negb retried && (0 <? tomb)).
+    + destruct (no_readers _); [|discriminate].
+      destruct (0 <? slots - size sto); fin H;
+        (apply (assemble_same _ _ _ _ I); [keepl Hp|keepl Hp|reflexivity|view_no I Hp|exact Logic.I|left; reflexivity]).
+    + fin H. apply (assemble_same _ _ _ _ I); [keepl Hp|keepl Hp|reflexivity|view_no I Hp|exact Logic.I|left; reflexivity].
+  - (* WPre -> WAlloc *)
+    fin H. own I Lg Hp Hc t.
+    pose proof (T_alloc _ (N.of_nat (length ops)) G) as T. cbv zeta in T.
+    rewrite (view_of_cur _ _ Hc) in T, G. vsimp. stf.
+    destruct T as [G' St].
+    eapply (assemble _ _ t _ I); stf.
+    + reflexivity.
+    + keepl Hp.
+    + keepl Hp.
+    + rewrite view_of_set, cur_owner_after by reflexivity. vsimp. stf. exact G'.
+    + rewrite view_of_set, cur_owner_after by reflexivity. vsimp. stf. cbn [P]. vsimp.
+      destruct G as [[Gn _] _ _ _ _ _ _ _ _ _]. vsimp. split; [exact Gn|]. split; [|apply mk_entries_sorted].
+      intros e He. apply mk_entries_bounds in He. lia.
+    + intros t' Hne. rewrite view_of_set, cur_owner_after by reflexivity. vsimp. stf.
+      apply St. pose proof (inv_p _ I t') as Pt'. rewrite (view_of_cur _ _ Hc) in Pt'. vsimp. stf. exact Pt'.
+    + intros f t' Hf. discriminate.
+  - (* WAlloc -> WAppended *)
+    fin H. own I Lg Hp Hc t.
+    rewrite (view_of_cur _ _ Hc) in G, Pt. vsimp. stf.
+    assert (Hes : forall e, In e es -> base <= e_seq e /\ e_seq e < nx).
+    { cbn [P] in Pt. vsimp. destruct Pt as [_ [Pt _]]. exact Pt. }
+    assert (Hss : StronglySorted N.lt (map e_seq es)).
+    { cbn [P] in Pt. destruct Pt as [_ [_ Pt]]. exact Pt. }
+    pose proof (T_append _ es G Hes Hss) as T. cbv zeta in T. vsimp. cbn [apply_entries fold_left] in T.
+    destruct T as [G' St].
+    eapply (assemble _ _ t _ I); stf.
+    + reflexivity.
+    + keepl Hp.
+    + keepl Hp.
+    + rewrite view_of_set, cur_owner_after by reflexivity. vsimp. stf. exact G'.
+    + exact Logic.I.
+    + intros t' Hne. rewrite view_of_set, cur_owner_after by reflexivity. vsimp. stf.
+      apply St. pose proof (inv_p _ I t') as Pt'. rewrite (view_of_cur _ _ Hc) in Pt'. vsimp. stf. exact Pt'.
+    + intros f t' Hf. discriminate.
+  - (* WAppended *)
+    destruct (negb (c_max_wal c =? 0) && (c_max_wal c <=? bytes)).
+    + (* create the next segment file *)
+      fin H. own I Lg Hp Hc t.
+      rewrite (view_of_cur _ _ Hc) in G. vsimp. stf.
+      pose proof (T_rotcreate _ G) as T. cbv zeta in T. vsimp.
+      destruct T as [G' St].
+      eapply (assemble _ _ t _ I); stf.
+      * reflexivity.
+      * keepl Hp.
+      * keepl Hp.
+      * rewrite view_of_set, cur_owner_after by reflexivity. vsimp. stf. exact G'.
+      * exact Logic.I.
+      * intros t' Hne. rewrite view_of_set, cur_owner_after by reflexivity. vsimp. stf.
+        apply St. pose proof (inv_p _ I t') as Pt'. rewrite (view_of_cur _ _ Hc) in Pt'. vsimp. stf. exact Pt'.
+      * intros f t' Hf. discriminate.
+    + fin H. own I Lg Hp Hc t.
+      apply (assemble_same _ _ _ _ I); [keepl Hp|keepl Hp|reflexivity| |exact Logic.I|left; reflexivity].
+      rewrite view_of_set, cur_owner_after by reflexivity. rewrite (view_of_cur _ _ Hc). reflexivity.
+  - (* WRotFile -> WLogged *)
+    destruct mlock as [m|]; [discriminate|].
+    fin H. own I Lg Hp Hc t.
+    rewrite (view_of_cur _ _ Hc) in G. vsimp. stf.
+    pose proof (T_rotman _ nf G eq_refl) as T. cbv zeta in T. vsimp.
+    destruct T as [G' St].
+    eapply (assemble _ _ t _ I); stf.
+    + reflexivity.
+    + keepl Hp.
+    + keepl Hp.
+    + rewrite view_of_set, cur_owner_after by reflexivity. vsimp. stf. exact G'.
+    + exact Logic.I.
+    + intros t' Hne. rewrite view_of_set, cur_owner_after by reflexivity. vsimp. stf.
+      apply St; [apply (link_none _ _ t' Lm)|].
+      pose proof (inv_p _ I t') as Pt'. rewrite (view_of_cur _ _ Hc) in Pt'. vsimp. stf. exact Pt'.
+    + intros f t' Hf. discriminate.
+  - (* WLogged -> WHalf *)
+    destruct (is_ins c0) eqn:Eins; fin H; own I Lg Hp Hc t;
+      (apply (assemble_same _ _ _ _ I); [keepl Hp|keepl Hp|reflexivity| |exact Logic.I|left; reflexivity]);
+      rewrite view_of_set, cur_owner_after by reflexivity; rewrite (view_of_cur _ _ Hc);
+      cbn [pend_of hi_of rot_of]; stf; rewrite ?Eins; reflexivity.
+  - (* WHalf -> WBoth *)
+    destruct (is_ins c0) eqn:Eins; fin H; own I Lg Hp Hc t;
+      (apply (assemble_same _ _ _ _ I); [keepl Hp|keepl Hp|reflexivity| |exact Logic.I|left; reflexivity]);
+      rewrite view_of_set, cur_owner_after by reflexivity; rewrite (view_of_cur _ _ Hc);
+      cbn [pend_of hi_of rot_of]; stf; rewrite ?Eins; reflexivity.
+  - (* WBoth -> WGateRel *)
+    fin H. own I Lg Hp Hc t.
+    apply (assemble_same _ _ _ _ I).
+    + stf. apply link_rel; [assumption|reflexivity].
+    + keepl Hp.
+    + reflexivity.
+    + rewrite view_of_set, cur_free_after by reflexivity. rewrite (view_of_cur _ _ Hc). reflexivity.
+    + exact Logic.I.
+    + left; reflexivity.
+  - (* WGateRel *)
+    fin H. destruct due;
+      (apply (assemble_same _ _ _ _ I); [keepl Hp|keepl Hp|reflexivity|view_no I Hp|exact Logic.I|left; reflexivity]).
+  - (* SWant -> SCaptured *)
+    destruct (no_readers _) eqn:Hnr; [|discriminate]. fin H.
+    match type of I with Inv ?s => pose proof (no_readers_gate_free s Lg Hnr) as Hg0 end. stf. subst gate.
+    assert (Hc : cur (mkSt nx sto slots cnt act bytes files snaps man fid None mlock thr) = Idle) by reflexivity.
+    apply (assemble_same _ _ _ _ I); [keepl Hp|keepl Hp|reflexivity|view_no I Hp| |left; reflexivity].
+    pose proof (T_capture _ G) as T. rewrite (view_of_cur _ _ Hc) in *. vsimp. stf.
+    cbn [apply_entries fold_left] in *. apply T. reflexivity.
+  - (* SCaptured -> SFile *)
+    fin H. pose proof (T_savefile _ last copy G Pt) as T. cbv zeta in T. destruct T as [G' [Pn St]].
+    eapply (assemble _ _ t _ I); stf.
+    + reflexivity.
+    + keepl Hp.
+    + keepl Hp.
+    + rewrite view_of_set. cur_no I Hp. exact G'.
+    + rewrite view_of_set. cur_no I Hp. exact Pn.
+    + intros t' Hne. rewrite view_of_set. cur_no I Hp. apply St. apply (inv_p _ I t').
+    + intros f t' Hf Hne Hf'. inversion Hf; subst f.
+      destruct (St _ (inv_p _ I t')) as [_ Hd]. stf. apply (Hd _ Hf'). reflexivity.
+  - (* SFile *)
+    destruct mlock as [m|]; [discriminate|].
+    destruct (last <? ptr_seq man) eqn:Est.
+    + (* stale: the new file is removed *)
+      fin H. cbn [P] in Pt. destruct Pt as [PC PF].
+      pose proof (T_stale _ fid0 last copy G PF) as T. cbv zeta in T. destruct T as [G' St].
+      eapply (assemble _ _ t _ I); stf.
+      * reflexivity.
+      * keepl Hp.
+      * keepl Hp.
+      * rewrite view_of_set. cur_no I Hp. exact G'.
+      * exact Logic.I.
+      * intros t' Hne. rewrite view_of_set. cur_no I Hp. apply St; [|apply (inv_p _ I t')].
+        apply (dist_self _ t fid0 t' I); [stf; rewrite Hp; reflexivity|exact Hne].
+      * intros f t' Hf. discriminate.
+    + fin H. apply (assemble_same _ _ _ _ I).
+      * keepl Hp.
+      * stf. apply link_acq; [assumption|reflexivity].
+      * reflexivity.
+      * view_no I Hp.
+      * cbn [P] in *. destruct Pt as [PC PF]. split; [exact PC|]. split; [exact PF|]. split; [reflexivity|].
+        apply N.ltb_ge in Est. exact Est.
+      * right. stf. rewrite Hp. reflexivity.
+  - (* SLoaded -> SPtr *)
+    fin H. assert (Hm : mlock = Some t) by (apply (proj1 Lm); rewrite Hp; reflexivity). subst mlock.
+    pose proof (T_ptr _ last copy fid0 segs G Pt) as T. cbv zeta in T. destruct T as [G' [Pn [_ St]]].
+    eapply (assemble _ _ t _ I); stf.
+    + reflexivity.
+    + keepl Hp.
+    + keepl Hp.
+    + rewrite view_of_set. cur_no I Hp. exact G'.
+    + rewrite view_of_set. cur_no I Hp. exact Pn.
+    + intros t' Hne. rewrite view_of_set. cur_no I Hp. apply St; [| |apply (inv_p _ I t')].
+      * apply (dist_self _ t fid0 t' I); [stf; rewrite Hp; reflexivity|exact Hne].
+      * apply (link_other _ _ _ t' Lm Hne).
+    + intros f t' Hf. discriminate.
+  - (* SPtr -> SCompacted *)
+    destruct (compact files last segs) as [keep del] eqn:Ec. fin H.
+    assert (Hm : mlock = Some t) by (apply (proj1 Lm); rewrite Hp; reflexivity). subst mlock.
+    pose proof (T_compact _ last fid0 segs keep del G Pt Ec) as T. cbv zeta in T. destruct T as [G' [Pn [Hnil St]]].
+    assert (Hman : match del with [] => man | _ :: _ => mkMan (Some (fid0, last)) keep end = mkMan (Some (fid0, last)) keep).
+    { destruct del; [apply Hnil; reflexivity|reflexivity]. }
+    rewrite Hman.
+    eapply (assemble _ _ t _ I); stf.
+    + reflexivity.
+    + keepl Hp.
+    + keepl Hp.
+    + rewrite view_of_set. cur_no I Hp. exact G'.
+    + rewrite view_of_set. cur_no I Hp. exact Pn.
+    + intros t' Hne. rewrite view_of_set. cur_no I Hp. apply St; [|apply (inv_p _ I t')].
+      apply (link_other _ _ _ t' Lm Hne).
+    + intros f t' Hf. discriminate.
+  - (* SCompacted -> SUnlinked *)
+    fin H. assert (Hm : mlock = Some t) by (apply (proj1 Lm); rewrite Hp; reflexivity). subst mlock.
+    pose proof (T_unlink _ last fid0 keep del G Pt) as T. cbv zeta in T. destruct T as [G' [Pn St]].
+    eapply (assemble _ _ t _ I); stf.
+    + reflexivity.
+    + keepl Hp.
+    + keepl Hp.
+    + rewrite view_of_set. cur_no I Hp. exact G'.
+    + rewrite view_of_set. cur_no I Hp. exact Pn.
+    + intros t' Hne. rewrite view_of_set. cur_no I Hp. apply St; [|apply (inv_p _ I t')].
+      apply (link_other _ _ _ t' Lm Hne).
+    + intros f t' Hf. discriminate.
+  - (* SUnlinked -> SSaved: the final save rewrites what is already there *)
+    fin H. cbn [P] in Pt. destruct Pt as [Pp Ps].
+    assert (Hman : mkMan (Some (fid0, last)) keep = man).
+    { destruct man as [p s]. cbn in Pp, Ps. subst. reflexivity. }
+    rewrite Hman.
+    apply (assemble_same _ _ _ _ I); [keepl Hp|keepl Hp|reflexivity|view_no I Hp|exact Logic.I|left; reflexivity].
+  - (* SSaved -> Idle *)
+    fin H. assert (Hm : mlock = Some t) by (apply (proj1 Lm); rewrite Hp; reflexivity). subst mlock.
+    apply (assemble_same _ _ _ _ I).
+    + keepl Hp.
+    + stf. apply link_rel; [assumption|reflexivity].
+    + reflexivity.
+    + view_no I Hp.
+    + exact Logic.I.
+    + left; reflexivity.
+Qed.
+
+Lemma start_inv : forall st t p1, Inv st -> is_idle (tget (st_thr st) t) = true ->
+  holds_gate p1 = false -> holds_mlock p1 = false -> snapfid p1 = None -> P (view_of st) p1 ->
+  Inv (set_thr st t p1).
+Proof.
+  intros st t p1 I Hid Hg Hm Hs Pn.
+  assert (Hidle : tget (st_thr st) t = Idle) by (destruct (tget (st_thr st) t); try discriminate; reflexivity).
+  apply (assemble_same _ _ _ _ I).
+  - apply link_keep; [exact (inv_gate _ I)|rewrite Hidle, Hg; reflexivity].
+  - apply link_keep; [exact (inv_mlock _ I)|rewrite Hidle, Hm; reflexivity].
+  - reflexivity.
+  - rewrite view_of_set. rewrite (cur_nonowner st) by (first [exact (inv_gate _ I)|rewrite Hidle; reflexivity|reflexivity]).
+    reflexivity.
+  - exact Pn.
+  - left. exact Hs.
+Qed.
+
+Lemma step_inv : forall c st e st', Inv st -> cstep c st e = Some st' -> Inv st'.
+Proof.
+  intros c st e st' I H. unfold cstep, cstep_l in H. destruct e as [t cl|t|t].
+  - destruct (is_idle (tget (st_thr st) t)) eqn:Hid; [|discriminate]. inversion H; subst st'.
+    apply start_inv; auto. exact Logic.I.
+  - destruct (is_idle (tget (st_thr st) t)) eqn:Hid; [|discriminate]. inversion H; subst st'.
+    apply start_inv; auto. exact Logic.I.
+  - destruct (tstep c st t (tget (st_thr st) t)) as [[[st1 p1] ls]|] eqn:Hs; [|discriminate].
+    inversion H; subst st'. eapply tstep_inv; eauto.
+Qed.
+
+Lemma run_inv : forall c sched st st', Inv st -> crun c st sched = Some st' -> Inv st'.
+Proof.
+  induction sched as [|e r IH]; intros st st' I H; cbn [crun] in H.
+  - inversion H; subst; exact I.
+  - destruct (cstep c st e) as [s1|] eqn:E; [|discriminate]. eapply IH; [eapply step_inv; eauto|exact H].
+Qed.
+
+Lemma init_inv : Inv init.
+Proof.
+  constructor.
+  - split; intros t H; cbn in H; discriminate.
+  - split; intros t H; cbn in H; discriminate.
+  - constructor; unfold view_of, cur, init, listed; stf; vsimp; cbn [m_segs m_ptr].
+    + lia.
+    + constructor; [intros []|constructor].
+    + intros f [Hf|[]]. subst f. split; [exists []; reflexivity|lia].
+    + exists []. reflexivity.
+    + intros f es e Hf He. cbn [fget] in Hf. destruct (1 =? f); [inversion Hf; subst; destruct He|discriminate].
+    + intros pf ps Hp. discriminate.
+    + intros _. reflexivity.
+    + intros pf ps docs Hp. discriminate.
+    + intros nf Hn. discriminate.
+    + cbn. constructor.
+  - intros t. cbn. exact Logic.I.
+  - intros t1 t2 f _ H. cbn in H. discriminate.
+Qed.
+
+Definition reachable (c : cfg) (st : state) : Prop := exists sched, crun c init sched = Some st.
+
+Lemma reachable_inv : forall c st, reachable c st -> Inv st.
+Proof. intros c st [sched H]. eapply run_inv; [exact init_inv|exact H]. Qed.
+
+(* what a restart yields at ANY moment: the store plus the entries appended but not yet applied *)
+Definition in_flight (st : state) : list entry := pend_of (cur st).
+
+Lemma recover_inv : forall st, Inv st ->
+  recover (disk_of st) = Some (apply_entries (st_store st) (in_flight st)).
+Proof.
+  intros st I. destruct (inv_gv _ I) as [[Gn1 Gn2] Gnd Gl [pre Gla] Gb Gp Gb0 Gb1 Gr Gs].
+  unfold view_of in *. vsimp. unfold listed in *. vsimp.
+  unfold recover, disk_of. cbn [d_man d_snaps d_files].
+  rewrite (read_segs_flat (st_files st) (m_segs (st_man st))) by (intros f Hf; apply Gl; exact Hf).
+  destruct (m_ptr (st_man st)) as [[pf ps]|] eqn:Ep.
+  - destruct (Gp pf ps eq_refl) as [_ [_ [docs Hd]]]. rewrite Hd.
+    rewrite N.ltb_irrefl. cbn [andb]. f_equal. eapply Gb1; eauto.
+  - cbn [andb N.ltb]. rewrite N.ltb_irrefl. cbn [andb]. f_equal. apply Gb0. reflexivity.
+Qed.
+
+Lemma all_done_idle : forall st, all_done st = true -> forall t, tget (st_thr st) t = Idle.
+Proof.
+  intros st H t. pose proof (forallb_tget is_idle (st_thr st) eq_refl H t) as Hi.
+  destruct (tget (st_thr st) t); try discriminate; reflexivity.
+Qed.
+
+Lemma quiescent_no_flight : forall st, all_done st = true -> in_flight st = [].
+Proof.
+  intros st H. unfold in_flight, cur. destruct (st_gate st) as [g|]; [|reflexivity].
+  rewrite (all_done_idle _ H g). reflexivity.
+Qed.
+
+Theorem quiescent_exact : forall c sched st,
+  crun c init sched = Some st -> all_done st = true -> recover (disk_of st) = Some (st_store st).
+Proof.
+  intros c sched st H Hd. rewrite (recover_inv st) by (eapply reachable_inv; exists sched; exact H).
+  rewrite (quiescent_no_flight _ Hd). reflexivity.
+Qed.
+
+(* at any moment, also with snapshots, rotations and compactions half done *)
+Theorem recover_any_time : forall c sched st,
+  crun c init sched = Some st -> recover (disk_of st) = Some (apply_entries (st_store st) (in_flight st)).
+Proof. intros c sched st H. apply recover_inv. eapply reachable_inv. exists sched. exact H. Qed.
+
+(* ---------------------------------------------------------------------------------------------- *)
+(* (ii) the manifest's snapshot pointer only grows                                                  *)
+(* ---------------------------------------------------------------------------------------------- *)
+
+Lemma tstep_ptr_mono : forall c st t st1 p1 ls, Inv st ->
+  tstep c st t (tget (st_thr st) t) = Some (st1, p1, ls) -> ptr_seq (st_man st) <= ptr_seq (st_man st1).
+Proof.
+  intros c st t st1 p1 ls I H. pose proof (inv_p _ I t) as Pt.
+  destruct st as [nx sto slots cnt act bytes files snaps man fid gate mlock thr]. stf.
+  destruct (tget thr t) eqn:Hp; cbn [tstep] in H;
+    repeat match type of H with
+           | (if ?b then _ else _) = _ => destruct b eqn:?
+           | match ?x with _ => _ end = _ => destruct x eqn:?
+           | None = Some _ => discriminate
+           end; try (fin H; stf; unfold ptr_seq; cbn [m_ptr]; lia).
+  all: cbn [P] in Pt; unfold view_of in Pt; vsimp; stf.
+  - fin H. stf. destruct Pt as [_ [_ [_ Hle]]]. unfold ptr_seq at 2. cbn [m_ptr]. exact Hle.
+  - fin H. stf. destruct Pt as [Hptr _]. unfold ptr_seq. rewrite Hptr.
+    match goal with |- context [match ?d with [] => _ | _ :: _ => _ end] => destruct d end; cbn; rewrite ?Hptr; lia.
+  - fin H. stf. destruct Pt as [Hptr _]. unfold ptr_seq. rewrite Hptr. cbn. lia.
+Qed.
+
+Lemma step_ptr_mono : forall c st e st', Inv st -> cstep c st e = Some st' ->
+  ptr_seq (st_man st) <= ptr_seq (st_man st').
+Proof.
+  intros c st e st' I H. unfold cstep, cstep_l in H. destruct e as [t cl|t|t].
+  - destruct (is_idle _); [|discriminate]. inversion H; subst. cbn. lia.
+  - destruct (is_idle _); [|discriminate]. inversion H; subst. cbn. lia.
+  - destruct (tstep c st t (tget (st_thr st) t)) as [[[st1 p1] ls]|] eqn:Hs; [|discriminate].
+    inversion H; subst. cbn [set_thr st_man]. eapply tstep_ptr_mono; eauto.
+Qed.
+
+Theorem stale_never_wins : forall c sched0 st sched st',
+  crun c init sched0 = Some st -> crun c st sched = Some st' ->
+  ptr_seq (st_man st) <= ptr_seq (st_man st').
+Proof.
+  intros c sched0 st sched st' H0. assert (I : Inv st) by (eapply reachable_inv; exists sched0; exact H0).
+  clear H0. revert st I. induction sched as [|e r IH]; intros st I H; cbn [crun] in H.
+  - inversion H; subst. lia.
+  - destruct (cstep c st e) as [s1|] eqn:E; [|discriminate].
+    pose proof (step_ptr_mono _ _ _ _ I E). pose proof (IH s1 (step_inv _ _ _ _ I E) H). lia.
+Qed.
+
+(* the stale branch itself: an older snapshot leaves the manifest alone and removes only its own file *)
+Theorem stale_skips : forall c st t last copy f st',
+  tget (st_thr st) t = SFile last copy f -> last < ptr_seq (st_man st) ->
+  cstep c st (EvStep t) = Some st' ->
+  st_man st' = st_man st /\ tget (st_thr st') t = Idle /\ st_files st' = st_files st.
+Proof.
+  intros c st t last copy f st' Hp Hlt H. unfold cstep, cstep_l in H. rewrite Hp in H.
+  destruct st as [nx sto slots cnt act bytes files snaps man fid gate mlock thr]. stf. cbn [tstep] in H.
+  destruct mlock; [discriminate|]. apply N.ltb_lt in Hlt. rewrite Hlt in H. inversion H; subst.
+  cbn [set_thr st_man st_thr st_files]. rewrite tget_tset_same. auto.
+Qed.
+
+(* ---------------------------------------------------------------------------------------------- *)
+(* replay visits every listed entry once, in order, and applies exactly the uncovered ones          *)
+(* ---------------------------------------------------------------------------------------------- *)
+
+Lemma replay_filter : forall last es d,
+  replay last d es = apply_entries d (filter (fun e => negb (covered last e)) es).
+Proof.
+  induction es as [|e r IH]; intros d; [reflexivity|].
+  unfold replay, apply_entries in *. cbn [fold_left filter]. unfold replay1 at 2.
+  destruct (covered last e); cbn [negb]; [apply IH|cbn [fold_left]; apply IH].
+Qed.
+
+Theorem no_duplicate_effect : forall c sched st,
+  crun c init sched = Some st ->
+  exists (last : N) (docs : store) (es : list entry),
+    read_segs (st_files st) (m_segs (st_man st)) = Some es /\
+    recover (disk_of st) = Some (apply_entries docs (filter (fun e => negb (covered last e)) es)) /\
+    StronglySorted N.lt (map e_seq es).
+Proof.
+  intros c sched st H. assert (I : Inv st) by (eapply reachable_inv; exists sched; exact H).
+  destruct (inv_gv _ I) as [[Gn1 Gn2] Gnd Gl [pre Gla] Gb Gp Gb0 Gb1 Gr Gs].
+  unfold view_of in *. vsimp. unfold listed in *. vsimp.
+  assert (Hr : read_segs (st_files st) (m_segs (st_man st)) = Some (flat (st_files st) (m_segs (st_man st))))
+    by (apply read_segs_flat; intros f Hf; apply Gl; exact Hf).
+  unfold recover, disk_of. cbn [d_man d_snaps d_files]. rewrite Hr.
+  destruct (m_ptr (st_man st)) as [[pf ps]|] eqn:Ep.
+  - destruct (Gp pf ps eq_refl) as [_ [_ [docs Hd]]]. rewrite Hd. rewrite N.ltb_irrefl. cbn [andb].
+    exists ps, docs, (flat (st_files st) (m_segs (st_man st))). split; [reflexivity|]. split; [|exact Gs].
+    rewrite replay_filter. reflexivity.
+  - rewrite N.ltb_irrefl. cbn [andb].
+    exists 0, empty, (flat (st_files st) (m_segs (st_man st))). split; [reflexivity|]. split; [|exact Gs].
+    rewrite replay_filter. reflexivity.
 Qed.
